@@ -42,6 +42,7 @@ type c08Scen struct {
 	Big  bool  `json:"big,omitempty"`
 	WS   bool  `json:"ws,omitempty"`
 	Comp bool  `json:"comp,omitempty"` // a component instead of a client
+	TLS  bool  `json:"tls,omitempty"`  // the client's session runs over STARTTLS
 }
 
 func goid() string {
@@ -115,7 +116,7 @@ func c08RunOne(w *tr.Writer, tid int, raw json.RawMessage, c *common) error {
 	if !stress {
 		g = gate
 	}
-	eo := envOpts{SM: sc.SM, Logger: sc.Logger, Gate: g, FailWrite: sc.FailAt, Partial: sc.Partial, WS: sc.WS}
+	eo := envOpts{SM: sc.SM, Logger: sc.Logger, Gate: g, FailWrite: sc.FailAt, Partial: sc.Partial, WS: sc.WS, TLS: sc.TLS}
 	var env *sessEnv
 	var err error
 	if sc.Comp {
@@ -346,6 +347,11 @@ func runC08(args []string) error {
 		if rng.Intn(4) == 0 {
 			sc.FailAt = 1 + rng.Intn(sc.G*sc.M)
 			sc.Partial = rng.Intn(2) == 0
+		}
+		if i%5 == 2 && !sc.Comp {
+			// over STARTTLS, with payloads larger than one TLS record (16 kB): a sender that hands its stanza to the
+			// connection in several pieces would let another sender in between
+			sc.TLS, sc.WS, sc.Big, sc.FailAt, sc.Partial = true, false, true, 0, false
 		}
 		b, _ := json.Marshal(sc)
 		tid++
